@@ -251,6 +251,76 @@ func c12Run(t *testing.T, r *vfRand, nPeers, nActions, k int) (steps []c12Step, 
 		synctest.Wait()
 		cur.rt = c12RT(d)
 	}
+	// shutdown while a refresh request is outstanding: often the node is closed while the
+	// refresh is still probing the liveness of its members (a probe parked, another hanging),
+	// sometimes later, during the refresh queries.  The request must still get its one answer.
+	if members := d.routingTable.ListPeers(); len(members) > 0 && r.Chance(45) {
+		steps = append(steps, c12Step{action: "close-during-refresh"})
+		cur = &steps[len(steps)-1]
+		if r.Bool() {
+			hangs[members[r.Intn(len(members))]] = true
+		}
+		time.Sleep(8 * time.Hour)
+		ch := d.RefreshRoutingTable()
+		synctest.Wait()
+		for y, n := 0, r.Intn(4); y < n; y++ { // let a few calls through first
+			if pend := node.gate.Pending(); len(pend) > 0 {
+				call := pend[r.Intn(len(pend))]
+				switch call.origin {
+				case "ping":
+					if fails[call.p] || hangs[call.p] {
+						cur.events = append(cur.events, "PingFail "+kad(call.p))
+					} else {
+						cur.events = append(cur.events, "PingOk "+kad(call.p))
+					}
+				case "probe":
+					cur.events = append(cur.events, fmt.Sprintf("ProbeDone %s %s", kad(call.p), vfBool(!fails[call.p])))
+				case "query":
+					if fails[call.p] {
+						cur.events = append(cur.events, fmt.Sprintf("QueryFail %s false", kad(call.p)))
+					} else {
+						cur.events = append(cur.events, "QueryOk "+kad(call.p))
+					}
+				}
+				node.gate.Release(call)
+				synctest.Wait()
+			}
+		}
+		closed := false
+		go func() {
+			_ = d.Close()
+			closed = true
+		}()
+		got, chClosed := 0, false
+		answered := func() bool {
+			for {
+				select {
+				case _, ok := <-ch:
+					if !ok {
+						chClosed = true
+						return closed
+					}
+					got++
+				default:
+					return closed && chClosed
+				}
+			}
+		}
+		// everything released from now on runs on a cancelled context
+		quiesce(context.Background(), nil, answered)
+		if !chClosed { // the loop is gone (Close returned): whatever is in the channel now is all there will be
+			select {
+			case _, ok := <-ch:
+				if ok {
+					got++
+				}
+			default:
+			}
+		}
+		refreshAnswers = append(refreshAnswers, got)
+		synctest.Wait()
+		cur.rt = c12RT(d)
+	}
 	return steps, self, refreshAnswers, ""
 }
 
